@@ -9,9 +9,18 @@ CHECKS = {
  'C04': ('vt', 'bounded-exhaustive enumeration of timed call programs x batch-function scripts on the real batcher under a virtual-time event loop',
          'Every program of up to 4 (thorough 6) calls over repeating keys, gaps straddling batch_timeout, configs, per-key batch-function behaviours (value / Exception / StopIteration / omitted / raise / duplicate / unknown key), result orders and durations is executed on the real AsyncBackgroundBatcher (class and function form, one and two instances); each caller outcome is matched by identity against what the harness batch function yielded for its key; a pending caller at loop quiescence is a hang.',
          'CPython 3.12 asyncio; virtual clock; <= 2 deviating keys per script; subclass instances of StopIteration are outside the alphabet (CPython returns their .value).', '3/C04'),
+ 'C01': ('tx', 'stateless model checking of the implementation: exhaustive thread-interleaving exploration with iterative preemption bounding (line-granular) under a controlled scheduler and virtual clock',
+         'Worlds of 2..3 (thorough 4) threads, each running its own virtual event loop through one of five life-cycles (asyncio.run; main returns early -> stock shutdown cancelling leftovers, in both task orders; per-caller wait_for; hand-driven loop abandoned with the computation pending, with and without finalisation of the abandoned coroutines; loop stopped from another thread), 1..2 (thorough 3) callers per loop, function scripts (return without suspending / suspend / sleep / raise), default dict and MutableMapping caches; EVERY schedule with at most PB preemptions (PB 1-2 quick, 2-3 thorough; choice points at every source line of aiuti code, every lock/executor/queue/loop-select operation and loop stop/close) is executed on the real code under a cooperative scheduler with a virtual clock; a monitor replays the total order of harness events. ' + 'Oracle: never two open invocations of a key on running loops; nothing invoked after the first success; normal returns carry that result.',
+         'one aiuti source line / one stdlib call is atomic; preemption bound as reported; loops not restarted; lru.LRU cache not used in the threaded worlds.', '3/C01'),
  'C03': ('vt', 'bounded-exhaustive enumeration of timed submission programs x failure scripts on the real buffer under a virtual-time event loop (engine A); thread-interleaving exploration for foreign submitters (engine B)',
          'Every program of up to 4 (thorough 5) submissions/waits over {plain, await_, map(list), map(iterator), amap} with producer delays and failure positions, gaps straddling the timeout, x failure scripts of the wrapped function x durations; oracle on the invocation log: nothing lost, nothing invented, loop-thread arguments in exactly one successful call.',
          'virtual clock; <= 2 complex producers per program; engine A runs helper threads to completion at submit.', '3/C03'),
+ 'C05': ('tx', 'stateless model checking of the implementation: exhaustive thread-interleaving exploration with iterative preemption bounding, deadlock / livelock (step budget) / horizon detection, exact virtual time',
+         'Worlds of 2..3 (thorough 4) threads, each running its own virtual event loop through one of five life-cycles (asyncio.run; main returns early -> stock shutdown cancelling leftovers, in both task orders; per-caller wait_for; hand-driven loop abandoned with the computation pending, with and without finalisation of the abandoned coroutines; loop stopped from another thread), 1..2 (thorough 3) callers per loop, function scripts (return without suspending / suspend / sleep / raise), default dict and MutableMapping caches; EVERY schedule with at most PB preemptions (PB 1-2 quick, 2-3 thorough; choice points at every source line of aiuti code, every lock/executor/queue/loop-select operation and loop stop/close) is executed on the real code under a cooperative scheduler with a virtual clock; a monitor replays the total order of harness events. ' + 'Oracle: every caller on a live loop finishes (deadlock, step budget and horizon are violations); virtual time a caller spends while no invocation of its key is open must be 0, or at most 60 s per hosting loop that died during its lifetime.',
+         'as C01; fairness = every enabled thread is eventually run by the default policy and spin loops are scheduler-visible.', '3/C05'),
+ 'C06': ('tx', 'stateless model checking of the implementation: exhaustive thread-interleaving exploration with iterative preemption bounding; per-caller outcome classification by identity',
+         'Worlds of 2..3 (thorough 4) threads, each running its own virtual event loop through one of five life-cycles (asyncio.run; main returns early -> stock shutdown cancelling leftovers, in both task orders; per-caller wait_for; hand-driven loop abandoned with the computation pending, with and without finalisation of the abandoned coroutines; loop stopped from another thread), 1..2 (thorough 3) callers per loop, function scripts (return without suspending / suspend / sleep / raise), default dict and MutableMapping caches; EVERY schedule with at most PB preemptions (PB 1-2 quick, 2-3 thorough; choice points at every source line of aiuti code, every lock/executor/queue/loop-select operation and loop stop/close) is executed on the real code under a cooperative scheduler with a virtual clock; a monitor replays the total order of harness events. ' + 'Oracle: each caller ends with the value, with an exception instance raised by an invocation its own task performed, or with a cancellation of its own task (own wait_for / own loop shutting down); anything else (bookkeeping KeyError, foreign CancelledError, RuntimeError of a closed loop) is a violation.',
+         'as C01.', '3/C06'),
  'C07': ('vt', 'bounded-exhaustive enumeration of timed programs with wait() calls and shutdown instants on the real buffer under a virtual-time event loop',
          'The C03 program space with the barrier oracle evaluated at the instant each wait() returns (several concurrent waiters, cancel=True/False); shutdown sweep: main() returns at every grid instant so that the stock asyncio _cancel_all_tasks meets the buffer idle / collecting / timer armed / function running and must terminate; direct cancellation of the background task.',
          'virtual clock; a loop with nothing ready and no timer during shutdown = shutdown hangs.', '3/C07'),
